@@ -369,8 +369,11 @@ void thrift_read_map_begin(thrift_decoder_t* dec,
 
 /* Skips one value.  depth counts the containers/structs enclosing it inside the
  * skipped field: nesting is bounded like struct nesting is, so that hostile input
- * (e.g. a long run of 0x19 list headers) cannot recurse until the stack overflows. */
-static void skip_value(thrift_decoder_t* dec, thrift_type_t type, int depth) {
+ * (e.g. a long run of 0x19 list headers) cannot recurse until the stack overflows.
+ * is_element: the value is a list/set/map element (a boolean element occupies one
+ * byte; a boolean struct field is carried by its field header). */
+static void skip_value(thrift_decoder_t* dec, thrift_type_t type, int depth,
+                       bool is_element) {
     if (dec->status != CARQUET_OK) {
         return;
     }
@@ -390,8 +393,12 @@ static void skip_value(thrift_decoder_t* dec, thrift_type_t type, int depth) {
 
         case THRIFT_TYPE_TRUE:
         case THRIFT_TYPE_FALSE:
-            /* Boolean value is embedded in type, nothing to skip */
-            dec->bool_pending = false;
+            if (is_element) {
+                read_byte_raw(dec);
+            } else {
+                /* Boolean value is embedded in type, nothing to skip */
+                dec->bool_pending = false;
+            }
             break;
 
         case THRIFT_TYPE_BYTE:
@@ -420,7 +427,7 @@ static void skip_value(thrift_decoder_t* dec, thrift_type_t type, int depth) {
             int32_t count;
             thrift_read_list_begin(dec, &elem_type, &count);
             for (int32_t i = 0; i < count && dec->status == CARQUET_OK; i++) {
-                skip_value(dec, elem_type, depth + 1);
+                skip_value(dec, elem_type, depth + 1, true);
             }
             break;
         }
@@ -430,8 +437,8 @@ static void skip_value(thrift_decoder_t* dec, thrift_type_t type, int depth) {
             int32_t count;
             thrift_read_map_begin(dec, &key_type, &value_type, &count);
             for (int32_t i = 0; i < count && dec->status == CARQUET_OK; i++) {
-                skip_value(dec, key_type, depth + 1);
-                skip_value(dec, value_type, depth + 1);
+                skip_value(dec, key_type, depth + 1, true);
+                skip_value(dec, value_type, depth + 1, true);
             }
             break;
         }
@@ -441,7 +448,7 @@ static void skip_value(thrift_decoder_t* dec, thrift_type_t type, int depth) {
             thrift_type_t field_type;
             int16_t field_id;
             while (thrift_read_field_begin(dec, &field_type, &field_id)) {
-                skip_value(dec, field_type, depth + 1);
+                skip_value(dec, field_type, depth + 1, false);
             }
             thrift_read_struct_end(dec);
             break;
@@ -458,7 +465,7 @@ static void skip_value(thrift_decoder_t* dec, thrift_type_t type, int depth) {
 }
 
 void thrift_skip(thrift_decoder_t* dec, thrift_type_t type) {
-    skip_value(dec, type, 0);
+    skip_value(dec, type, 0, false);
 }
 
 /* ============================================================================
